@@ -113,6 +113,31 @@ impl<'a, F> DataFrameEmitter<'a, F> where F: FnMut(Box<[u8]>) {
         return Ok(());
     }
 
+    // Returns Ok(()) if a subsequent call to push() cannot fail for lack of bandwidth or frame
+    // window space. Otherwise returns the error push() would return, with the same side effects.
+    pub fn check_push(&mut self) -> Result<(), DataPushError> {
+        let (frame_size, frame_count) =
+            if let Some(ref next_frame) = self.in_progress_frame {
+                (next_frame.fbuilder.size() as isize, 1)
+            } else {
+                (0, 0)
+            };
+
+        if self.flush_alloc - frame_size < 0 {
+            // Out of bandwidth
+            self.finalize();
+            self.frame_queue.mark_rate_limited();
+            return Err(DataPushError::SizeLimited);
+        }
+
+        if !self.frame_queue.can_push_count(frame_count + 1) {
+            // A new frame (beyond the one in progress) would exceed window
+            return Err(DataPushError::WindowLimited);
+        }
+
+        return Ok(());
+    }
+
     pub fn finalize(&mut self) {
         if let Some(next_frame) = self.in_progress_frame.take() {
             let frame_bytes = next_frame.fbuilder.build();
